@@ -4706,10 +4706,11 @@ class ParseCtx:
         elif type_obj.data == "enum_type":
             return OutputStorage(OutputStorageType.ENUM, name, default_value=default_value, enum_values=list(x.value for
                 x in type_obj.children))
-        elif type_obj.data == "str_type":
-            return OutputStorage(OutputStorageType.STR, name, default_value=default_value, str_size=self._convert_int(type_obj.children[0].value))
-        elif type_obj.data == "unterm_str_type":
-            return OutputStorage(OutputStorageType.STR, name, default_value=default_value, str_size=self._convert_int(type_obj.children[0].value), str_null=False)
+        elif type_obj.data in ("str_type", "unterm_str_type"):
+            str_size = self._convert_int(type_obj.children[0].value)
+            if str_size < 1:
+                raise IllegalParseTree("String size must be at least 1", type_obj.children[0])
+            return OutputStorage(OutputStorageType.STR, name, default_value=default_value, str_size=str_size, str_null=type_obj.data == "str_type")
         elif type_obj.data == "raw_type":
             return OutputStorage(OutputStorageType.RAW, name, raw_underlying=type_obj.children[0].value)
         else:
